@@ -49,3 +49,26 @@ Goal True. idtac "THEOREM C03_flux_sum". Abort. Print Assumptions C03_flux_sum.
 Goal True. idtac "THEOREM C03_source_mean". Abort. Print Assumptions C03_source_mean.
 Goal True. idtac "THEOREM C03_conc_sum". Abort. Print Assumptions C03_conc_sum.
 Goal True. idtac "THEOREM C03_footprint_mass". Abort. Print Assumptions C03_footprint_mass.
+
+(* a halo of any width is exactly the caller zero-padding the source by px = int(halo/dx),
+   py = int(halo/dy) cells, enlarging the domain to (nxe*dx, nye*dy), solving with halo = 0 and
+   cropping: every cell of both fields at every level, footprint mode for any measurement point
+   (moved by the padding) and dispersion mode with the measurement point at the origin *)
+From BL Require Import Proofs.HaloProofs.
+Theorem C03_halo_is_padding : forall (O : Ops), Laws O -> forall (a : args O) (g : geom O) sel k j i,
+  (forall pq s, sel (cmul O (fst pq) s, cmul O (snd pq) s) = cmul O (sel pq) s) ->
+  wf O a -> geometry O a = inl g -> g_nx O g <> 0%nat -> g_ny O g <> 0%nat ->
+  (a_footprint O a = false -> a_xm O a = c0 O /\ a_ym O a = c0 O) ->
+  (k < length (a_levels O a))%nat -> (j < g_ny O g)%nat -> (i < g_nx O g)%nat ->
+  get3 O (field O a g sel (table O a g)) k j i
+  = get3 O (field O (padded_req O a g) (padded_geom O g) sel (table O (padded_req O a g) (padded_geom O g))) k
+         (j + g_py O g) (i + g_px O g).
+Proof. exact halo_is_padding. Qed.
+
+Theorem C03_padded_request_geometry : forall (O : Ops), Laws O -> forall (a : args O) (g : geom O),
+  wf O a -> geometry O a = inl g -> g_nx O g <> 0%nat -> g_ny O g <> 0%nat ->
+  geometry O (padded_req O a g) = inl (padded_geom O g).
+Proof. exact padded_geometry. Qed.
+
+Goal True. idtac "THEOREM C03_halo_is_padding". Abort. Print Assumptions C03_halo_is_padding.
+Goal True. idtac "THEOREM C03_padded_request_geometry". Abort. Print Assumptions C03_padded_request_geometry.
